@@ -898,7 +898,7 @@ fn optimizer_rules(cx: &mut Ctx, o: &Src) {
                     let then_t = sm::tsc(&i.then_branch);
                     let else_t = i.else_branch.as_ref().map(|(_, e)| sm::tsc(e)).unwrap_or_default();
                     let then_ok = then_t.contains("Constant::Tuple(") && then_t.contains("ExprConstant{") && range_preserved(&then_t);
-                    let else_ok = else_t.contains("crate::Expr::Tuple(crate::ExprTuple{elts,ctx,range})");
+                    let else_ok = else_t.contains("crate::Expr::Tuple(crate::ExprTuple{ctx,elts,range})");
                     if then_ok {
                         cx.ok("C12.O1", "all-constant branch builds ExprConstant{ Constant::Tuple(..), range }");
                     } else {
